@@ -102,6 +102,17 @@ def exercise(sh, facade, kind, combo, block_kind, keyp):
             o = None
         if o is not None and all(o is not x for _, x in objs):
             objs.append((type(o).__name__, o))
+    def inventory():
+        out = []
+        for n in ("pumps", "blowers", "lights", "sensors", "binary_sensors", "devices"):
+            try:
+                v = getattr(facade, n)
+                out.append((n, len(v), tuple(getattr(x, "key", x) if not isinstance(x, str) else x for x in v)))
+            except Exception:
+                out.append((n, None, None))
+        return out
+
+    inv0 = inventory()
     for cname, o in objs:
         for name, thunk in read_members(o):
             if cname == "facade" and name in ("reminders",) and kind == "threaded":
@@ -114,6 +125,11 @@ def exercise(sh, facade, kind, combo, block_kind, keyp):
                 sh.violation(f"{keyp}:{cname}.{name}", f"{kind} facade on {combo[0]}-cfg-{combo[1]}/log-{combo[2]} ({block_kind} block): {cname}.{name} raised {d['type']}: {d['msg']}", {"combo": combo, "block": block_kind, "member": f"{cname}.{name}", "exc": d})
                 continue
             sh.see("member_names", f"{cname}.{name}")
+    # reading is reading: after every read-only member has been evaluated the inventory is what it was
+    inv1 = inventory()
+    if inv1 != inv0:
+        ch = [(a[0], a[1], b[1]) for a, b in zip(inv0, inv1) if a != b]
+        sh.violation(f"{keyp}:read-changes-state", f"{kind} facade on {combo[0]}-cfg-{combo[1]}/log-{combo[2]}: evaluating its read-only members changed the inventory (list, length before, after): {ch}", {"combo": combo, "block": block_kind, "changed": ch})
     # device list and lookup
     try:
         keys = facade.devices
